@@ -29,6 +29,7 @@ func stagedTriggers(o *kit.Out, r *kit.Rand) {
 	type stage struct {
 		interval, dur time.Duration
 		lg            *evalLog
+		endsLate      bool
 	}
 	nst := int(r.Range(2, 3))
 	var sts []*stage
@@ -40,7 +41,7 @@ func stagedTriggers(o *kit.Out, r *kit.Rand) {
 			iv = time.Duration(kit.Pick(r, 300, 400, 500)) * time.Millisecond
 			d = iv*2 + iv*time.Duration(r.Range(20, 70))/100
 		}
-		sts = append(sts, &stage{iv, d, &evalLog{}})
+		sts = append(sts, &stage{iv, d, &evalLog{}, iv <= 50*time.Millisecond && r.Chance(60)})
 	}
 	trig := &api.Trigger{Description: "verif stages", Trigger: func(ctx context.Context, out *ui.Output, pm *workers.PoolManager, opts options.RunOptions) {
 		for _, st := range sts {
@@ -48,12 +49,21 @@ func stagedTriggers(o *kit.Out, r *kit.Rand) {
 				return
 			}
 			lg := st.lg
+			began := time.Now()
+			stalled := false
+			iv, dur, late := st.interval, st.dur, st.endsLate
 			fn := func(time.Time) int {
 				t := mono()
 				lg.mu.Lock()
 				lg.times = append(lg.times, t)
 				lg.values = append(lg.values, 2)
 				lg.mu.Unlock()
+				// the stage ends while its ticking goroutine is behind: the evaluation in progress when
+				// the stage's time is up takes more than an interval (a tick is due meanwhile)
+				if late && !stalled && time.Since(began) > dur-20*time.Millisecond-iv {
+					stalled = true
+					time.Sleep(iv + iv/2)
+				}
 				return 2
 			}
 			sctx, cancel := context.WithTimeout(ctx, st.dur-20*time.Millisecond)
